@@ -15,7 +15,8 @@
 (*           of its members that stays inside the bound                    *)
 (*  "craft"  edits crafted from the reference serialisation: a key / value *)
 (*           whose text re-creates the serialised text of a two-entry      *)
-(*           mapping / two-item sequence                                   *)
+(*           mapping / two-item sequence; control characters against the   *)
+(*           text of a shorter hex escape followed by a hex digit          *)
 (*  "table"  the verification outcome table: hosts x vars shape x          *)
 (*           signature x exclusion list x excluded child; plus plays with  *)
 (*           top-level labels that merely start with hosts / vars          *)
@@ -63,7 +64,8 @@ Std(free) ==
          KS(A, free) >>)
 
 (* ---- "free": all value trees of at most 3 nodes ---- *)
-Chars == {97, 39, 34, 92, 44, 40, 41, 32, 10, 110} \* a ' " \ , ( ) space newline n (n: the text of an escape)
+Chars == {97, 39, 34, 92, 44, 40, 41, 32, 10, 110,  \* a ' " \ , ( ) space newline n (n: the text of an escape)
+          1, 16, 31, 48, 102}                        \* control characters U+0001 U+0010 U+001F and the hex digits 0 f
 RECURSIVE StrUpTo(_)
 StrUpTo(n) == IF n = 0 THEN {<<>>} ELSE StrUpTo(n - 1) \cup {Append(s, c) : s \in {x \in StrUpTo(n - 1) : Len(x) = n - 1}, c \in Chars}
 BigStr == StrUpTo(StrLen)
@@ -98,6 +100,11 @@ FreeCraft ==
            : <<k1, k2>> \in {kk \in PlainK \X PlainK : kk[1] # kk[2]}, v1 \in PlainV, v2 \in PlainV}
     \cup UNION {{L(<<S(v1), S(v2)>>), L(<<S(CraftVal(v1, v2))>>), S(Ser(L(<<S(v1), S(v2)>>)))}
            : v1 \in PlainV, v2 \in PlainV}
+    \* a control character vs the smaller control character its (un-padded) hex escape starts with + a hex digit,
+    \* and the literal escape texts, as value and as key
+    \cup UNION {{S(s), L(<<S(s)>>), M(<<KS(s, S(A))>>), M(<<KS(A, S(s)), KS(s, I(1))>>)}
+                : s \in {<<16>>, <<1, 48>>, <<31>>, <<1, 102>>, <<127>>, <<7, 102>>, <<7>>, <<0>>, <<0, 48>>, <<27>>, <<1, 98>>,
+                         <<92, 120, 49, 48>>, <<92, 120, 49, 102>>, <<92, 120, 48, 49, 48>>, <<16, 48>>, <<1, 48, 48>>}}
     \cup UNION {{tr, S(Ser(tr))} : tr \in {I(1), Bo(TRUE), Bo(FALSE), Nul, L(<<>>), M(<<>>), L(<<I(1)>>), M(<<KS(A, I(1))>>)}}
 
 (* ---- "table" ---- *)
